@@ -3669,6 +3669,12 @@ impl Context {
             return (Arc::new(Value::None), unit!(), vec![]);
         }
 
+        // The first arm that matches is taken: the arms that follow a `_` arm are unreachable.
+        let arms = arms
+            .iter()
+            .position(|arm| matches!(&arm.pattern, MatchPattern::Wildcard))
+            .map_or(arms, |i| &arms[..=i]);
+
         let (scrut_val, scrut_ty, mut states) = self.eval_expr(scrutinee);
 
         // Check if scrutinee is a union type or user-defined sum type
@@ -4079,8 +4085,10 @@ impl Context {
                                 row
                             })
                             .collect();
-                        // Add wildcard rows to this case
+                        // Add wildcard rows to this case, keeping the rows in the order of the
+                        // arms: the leaf takes the first row, i.e. the first arm that matches
                         transformed_rows.extend(wildcard_rows.iter().cloned());
+                        transformed_rows.sort_by_key(|row| row.arm_index);
                         // Use remaining_cols (not new_remaining_cols) since we replaced the cell
                         let subtree = Self::build_decision_tree(&transformed_rows, remaining_cols);
                         (val, Box::new(subtree))
